@@ -25,8 +25,9 @@ class Cursor(Abstract):
     """Abstract child matcher satisfying the interface contract."""
     n = 0
 
-    def __init__(self, I, name, like=None, nonneg=True):
+    def __init__(self, I, name, like=None, nonneg=True, strict_skip=False):
         self.name = name
+        self.strict_skip = strict_skip if like is None else like.strict_skip
         if like is None:
             u = I.fresh_name(name)
             self.S = z3.Function(u + "_S", IntS, BoolS)
@@ -72,6 +73,9 @@ class Cursor(Abstract):
 
     def g_sc(self, I, s):
         return self.sc(to_z3(s))
+
+    def g_bq(self, I, s):
+        return self.bq(to_z3(s))
 
     # ---- methods the real code calls
     def active(self):
@@ -167,6 +171,7 @@ class Cursor(Abstract):
         self.need_quality(I, "skip_to_quality")
         self.need_active(I, "skip_to_quality")
         q = _real(q)
+        old_cur = self.cur
         c2 = z3.Int(I.fresh_name(self.name + "_cur"))
         s = z3.Int(I.fresh_name("s"))
         I.assume(z3.And(self.wf(c2), c2 >= self.cur,
@@ -174,6 +179,9 @@ class Cursor(Abstract):
         self.cur = c2
         n = z3.Int(I.fresh_name("skipped"))
         I.assume(n >= 0)
+        if self.strict_skip:
+            # leaf-like child: "0 blocks skipped" means it did not move
+            I.assume(z3.Implies(n == 0, c2 == old_cur))
         return n
 
     def m_replace(self, I, minquality=0):
